@@ -177,6 +177,17 @@ def tensor_method(it: Any, v: TV, name: str, args: List[Any], kwargs: Dict[str, 
             it.log("inplace", node, target=v, op=name, alias=v.alias)
         return TV(term, kind="opaque")
     # ---- tensor receivers
+    elems_ = getattr(v, "elems", None)
+    if elems_ is not None:
+        # a 1-d tensor stacked from known 0-d tensors: element-wise conversions and read-back keep the elements
+        if name in CAST_METHODS or name in ("to", "clone", "detach", "cpu", "contiguous"):
+            out_ = TV(term, shape=v.shape)
+            out_.elems = [tensor_method(it, e_, name, args, kwargs, node) if isinstance(e_, TV) else e_ for e_ in elems_]  # type: ignore[attr-defined]
+            return out_
+        if name == "tolist" and not args:
+            return [tensor_method(it, e_, "item", [], {}, node) if isinstance(e_, TV) else e_ for e_ in elems_]
+        if name == "unbind":
+            return tuple(elems_)
     if name in ("numel", "nelement"):
         if v.shape is not None:
             return num(v.shape.numel())
@@ -870,6 +881,12 @@ def call_ext(it: Any, f: ExtV, args: List[Any], kwargs: Dict[str, Any], node: An
                 it.log("raise", node, exc=f"RuntimeError(broadcast: {e})")
                 return BOTTOM
         return Unknown("broadcast_shapes of unknown shapes")
+    if name == "torch.stack" and args and isinstance(args[0], (list, tuple)) and args[0] and all(isinstance(e_, TV) and e_.kind == "tensor" for e_ in args[0]) and (len(args) == 1 or args[1] == 0) and kwargs.get("dim", 0) == 0:
+        term_ = T("call", (name, (("tensors", tuple(A._term(e_) for e_ in args[0])),)))
+        out_ = TV(term_, shape=None)
+        out_.elems = list(args[0])  # type: ignore[attr-defined]
+        it.log("call", node, callee=name, args=args, kwargs=kwargs, bound=None, result=term_)
+        return out_
     if name == "torch.tensor":
         x = args[0] if args else kwargs.get("data")
         dt = canon_dtype(kwargs.get("dtype")) if "dtype" in kwargs else None
